@@ -500,12 +500,17 @@ func (c *Client) Ping() error {
 	case <-transaction.Done():
 		return transaction.Err()
 	case <-c.groupCtx.Done():
-		return c.group.Wait()
+		return errPingInterrupted
 	}
 }
 
 // Sleep informs the MQTT-SN gateway that the client is going to sleep.
 func (c *Client) Sleep(duration time.Duration) error {
+	// Must be checked before the transaction is stored: a transaction which
+	// never starts would never be removed from the store.
+	if state := c.state.Get(); state != util.StateActive && state != util.StateAwake {
+		return fmt.Errorf("cannot call Sleep() in %q state", state)
+	}
 	transaction := newSleepTransaction(c, duration)
 	c.transactions.StoreByType(pkts.DISCONNECT, transaction)
 	if err := transaction.Sleep(); err != nil {
